@@ -136,6 +136,10 @@ async fn layout_case(out: &mut Out, groups: &[Vec<Upd>], c: &CCfg, read_fault: O
         p.set_fault(at, rf.1);
     }
     let r = p.compact(out, c).await;
+    if let Some(msg) = &p.panicked {
+        out.violation("C13:compaction:panic", &format!("Compactor::compact panicked under a legal configuration: {}", msg),
+            json!({"workload": p.text, "now_ms": c.now, "tombstone_ttl_ms": c.ttl.as_millis().to_string(), "target": c.target, "min": c.min, "max_per_compaction": c.maxper}));
+    }
     let after = p.rec(out).await;
     let read_recs = p.store.inner.lock().unwrap().read_faults.clone();
     let undetectable = !p.undetectable().is_empty();
@@ -176,6 +180,12 @@ async fn layout_case(out: &mut Out, groups: &[Vec<Upd>], c: &CCfg, read_fault: O
             "the segments removed by the compaction pass are not the oldest-first prefix (by id) of the candidate segments (size < target), of length min(#candidates, max_segments_per_compaction)",
             json!({"workload": p.text, "segments(id,size)": p.segs.iter().map(|(i, z, _)| (*i, *z)).collect::<Vec<_>>(), "target": c.target, "max_per_compaction": c.maxper, "candidates": cand, "expected_removed": expected, "removed": removed}));
     }
+    // oracle independent of the model: with a TTL longer than `now` no tombstone may be dropped
+    if tombs > 0 && c.ttl.as_millis() > c.now as u128 {
+        let sig = if c.ttl.as_millis() >= (1u128 << 64) { "C13:tombstone-gc:ttl-truncated-to-u64" } else { "C13:tombstone-gc:dropped-although-ttl-not-elapsed" };
+        out.violation(sig, "the pass dropped a tombstone although the configured tombstone TTL is longer than the time elapsed since the epoch (now)",
+            json!({"workload": p.text, "now_ms": c.now, "tombstone_ttl_ms": c.ttl.as_millis().to_string(), "tombstones_removed": tombs}));
+    }
     let (fb, fa) = (fold_of(&before), fold_of(&after));
     let nontrivial = outcome == "compacted" && groups.len() >= 2;
     out.case(&p.text, nontrivial);
@@ -189,7 +199,7 @@ async fn layout_case(out: &mut Out, groups: &[Vec<Upd>], c: &CCfg, read_fault: O
             }
             let differs = if tombs == 0 { a != b } else { visible(a) != visible(b) };
             if differs {
-                let (mut sig, key) = classify(b, a, tombs, &all, c.cutoff);
+                let (mut sig, key) = classify(b, a, tombs, &all, c.cutoff());
                 // cause of the uncompacted value: where does the key live outside the pass?
                 let mut outside: Vec<serde_json::Value> = Vec::new();
                 if let Some(k) = &key {
@@ -305,7 +315,7 @@ async fn race_run(schedule: &[u8], finish: bool) -> RaceResult {
     let n = lww_upd("n", b"9", 7, 1, false);
     pers.push(ReplicationDelta::new(n.0.clone(), n.1.clone(), ReplicaId::new(1))).unwrap();
     let cstore = store.with_tag(1);
-    let mut comp = compactor(&cstore, &CCfg { target: 1 << 20, min: 2, maxper: 5, cutoff: 0 });
+    let mut comp = compactor(&cstore, &CCfg { target: 1 << 20, min: 2, maxper: 5, now: 0, ttl: std::time::Duration::ZERO });
     {
         let mut g = store.inner.lock().unwrap();
         g.gate = Some([0, 0]);
@@ -423,7 +433,7 @@ async fn interleave_case(out: &mut Out) {
     }
     let n = lww_upd("n", b"9", 7, 1, false);
     p.push(out, &n);
-    let c = CCfg { target: 1 << 20, min: 2, maxper: 5, cutoff: 0 };
+    let c = CCfg { target: 1 << 20, min: 2, maxper: 5, now: 0, ttl: std::time::Duration::ZERO };
     let cstore = p.store.with_tag(1);
     let mut comp = compactor(&cstore, &c);
     {
@@ -482,7 +492,7 @@ async fn interleave_case(out: &mut Out) {
         g.gate = None;
     }
     let calls = p.store.calls();
-    p.log(out, format!("INTERLEAVE {} {} {} {} {} {}", c.target, c.min, c.maxper, c.cutoff, szc, szf), format!("flush={} compact={} calls={}", fo, co, calls));
+    p.log(out, format!("INTERLEAVE {} {} {} {} {} {} {}", c.target, c.min, c.maxper, c.now, c.ttl.as_millis(), szc, szf), format!("flush={} compact={} calls={}", fo, co, calls));
     p.rec(out).await.ok();
     p.commit(out);
     out.count("interleaving:model-correspondence");
@@ -507,7 +517,10 @@ async fn random_case(out: &mut Out, rng: &mut Rng) {
     let mode = rng.below(4);
     let ups: Vec<Upd> = if mode == 0 {
         // single replica, strictly increasing stamps per key, no expiry: keep-latest agrees with merge
-        let mut clock = rng.range(1, 30);
+        // stamps near 0, near 2^63 and near u64::MAX
+        let base: u64 = *rng.pick(&[0u64, 0, 0, (1u64 << 63) - 25, u64::MAX - 80]);
+        out.count(&format!("stamps:{}", if base == 0 { "small" } else if base < (1u64 << 63) { "around-2^63" } else { "near-u64-max" }));
+        let mut clock = base + rng.range(1, 30);
         (0..rng.range(3, 14))
             .map(|_| {
                 clock += rng.range(1, 3);
@@ -529,19 +542,38 @@ async fn random_case(out: &mut Out, rng: &mut Rng) {
     if groups.is_empty() {
         return;
     }
-    // size target: sometimes below some segments' size so that they are skipped
-    let target = match rng.below(4) {
+    // configuration is generated input, extremes included
+    let target: u64 = match rng.below(8) {
         0 => 260,
-        1 => 400,
+        1 | 2 => 400,
+        3 => if rng.chance(1, 2) { 0 } else { 1 },
         _ => 1 << 20,
     };
     let max_t = ups.iter().map(|u| u.1.timestamp.time).max().unwrap_or(0);
-    let cutoff = match rng.below(4) {
-        0 => rng.below(max_t + 2),
-        1 => max_t + 1,
-        _ => 0,
+    use std::time::Duration;
+    let (now, ttl): (u64, Duration) = match rng.below(10) {
+        // cutoff given directly (ttl 0): none / mid-range / above every stamp
+        0 | 1 => (0, Duration::ZERO),
+        2 => (rng.below(max_t.saturating_add(2).max(1)), Duration::ZERO),
+        3 => (max_t.saturating_add(1), Duration::ZERO),
+        // a clock ahead of the stamps and a typical TTL
+        4 => (max_t.saturating_add(5000), Duration::from_millis(rng.range(1, 6000))),
+        5 => (max_t.saturating_add(1), Duration::from_millis(1)),
+        // TTL beyond `now`: nothing may be collected
+        6 => (max_t.saturating_add(1), Duration::from_millis(max_t.saturating_add(1).saturating_add(rng.below(3)))),
+        7 => (*rng.pick(&[max_t.saturating_add(1), 1_700_000_000_000u64.max(max_t), u64::MAX]),
+              *rng.pick(&[Duration::from_millis((1u64 << 63) - 1), Duration::from_millis(1u64 << 63), Duration::from_millis(u64::MAX), Duration::MAX])),
+        // 2^64 + 384 ms: `as_millis() as u64` wraps to 384 ms (known finding ttl-truncated-to-u64)
+        8 => (max_t.saturating_add(1000), Duration::from_secs(18446744073709552)),
+        _ => (1_700_000_000_000u64.max(max_t), Duration::from_secs(24 * 3600)),
     };
-    let c = CCfg { target, min: rng.range(1, 3), maxper: if rng.chance(1, 2) { 2 } else { rng.range(2, 5) }, cutoff };
+    let min = *rng.pick(&[0u64, 1, 1, 2, 2, 3, 1 << 40]);
+    let maxper = if rng.chance(1, 2) { 2 } else { *rng.pick(&[0u64, 1, 2, 3, 4, 5, 1 << 40]) };
+    out.count(&format!("config:ttl:{}", if ttl.is_zero() { "0" } else if ttl.as_millis() >= (1u128 << 64) { ">=2^64ms" } else if ttl.as_millis() >= (1u128 << 63) { ">=2^63ms" } else if ttl.as_millis() > now as u128 { ">now" } else { "<=now" }));
+    out.count(&format!("config:min={}", if min > 5 { "huge".to_string() } else { min.to_string() }));
+    out.count(&format!("config:maxper={}", if maxper > 5 { "huge".to_string() } else { maxper.to_string() }));
+    out.count(&format!("config:target={}", if target > 1000 { "huge".to_string() } else { target.to_string() }));
+    let c = CCfg { target, min, maxper, now, ttl };
     // 1/3 of the layouts: one read of the pass comes back mangled (or fails)
     let rf = if rng.chance(1, 3) {
         let f = match rng.below(5) {
@@ -562,7 +594,7 @@ pub fn run(a: &Args) {
     let mut rng = Rng::new(a.seed);
     let rt = tokio::runtime::Builder::new_current_thread().enable_all().build().unwrap();
     rt.block_on(async {
-        let all = CCfg { target: 1 << 20, min: 2, maxper: 5, cutoff: 0 };
+        let all = CCfg { target: 1 << 20, min: 2, maxper: 5, now: 0, ttl: std::time::Duration::ZERO };
         // corpus: the kernel-checked counterexamples of Props/C13.lean on the real code
         layout_case(&mut out, &[vec![lww_upd("k", b"1", 5, 1, false)], vec![lww_upd("k", b"2", 5, 2, false)]], &all, None, "corpus:equal-times", true).await;
         let mut e1 = lww_upd("e", b"1", 3, 1, false);
@@ -574,7 +606,7 @@ pub fn run(a: &Args) {
             .chain((0..12).map(|i| lww_upd(&format!("pad{}", i), &[b'x'; 30], 1, 1, false)))
             .collect();
         layout_case(&mut out, &[big, vec![tomb_upd("t", 5, 1)], vec![lww_upd("u", b"1", 6, 1, false)]],
-            &CCfg { target: 1000, min: 2, maxper: 5, cutoff: 100 }, None, "corpus:older-value-in-skipped-segment", true).await;
+            &CCfg { target: 1000, min: 2, maxper: 5, now: 100, ttl: std::time::Duration::ZERO }, None, "corpus:older-value-in-skipped-segment", true).await;
         // the dropped tombstone carries an expiry (record_delete keeps expiry_ms) that the merge with a
         // newer value in an uncompacted segment retains (max of expiries): GC removes it
         let mut v13 = lww_upd("k", b"v13", 5, 1, false);
@@ -585,7 +617,7 @@ pub fn run(a: &Args) {
             .chain((0..12).map(|i| lww_upd(&format!("pad{}", i), &[b'x'; 30], 1, 1, false)))
             .collect();
         layout_case(&mut out, &[vec![v13], vec![td], bigk],
-            &CCfg { target: 1000, min: 2, maxper: 5, cutoff: 100 }, None, "corpus:expiry-of-dropped-tombstone", true).await;
+            &CCfg { target: 1000, min: 2, maxper: 5, now: 100, ttl: std::time::Duration::ZERO }, None, "corpus:expiry-of-dropped-tombstone", true).await;
         // same with the vector clock (Causal mode, two replicas): the dropped tombstone of r1 contributed
         // {r1:2} to the merged vector clock of r2's newer write
         let with_vc = |mut u: Upd, vc: &[(u64, u64)]| -> Upd {
@@ -598,24 +630,38 @@ pub fn run(a: &Args) {
             .chain((0..12).map(|i| lww_upd(&format!("pad{}", i), &[b'x'; 30], 1, 1, false)))
             .collect();
         layout_case(&mut out, &[vec![with_vc(lww_upd("k", b"a", 5, 1, false), &[(1, 1)])], vec![with_vc(tomb_upd("k", 6, 1), &[(1, 2)])], bigv],
-            &CCfg { target: 1000, min: 2, maxper: 5, cutoff: 100 }, None, "corpus:vclock-of-dropped-tombstone", true).await;
+            &CCfg { target: 1000, min: 2, maxper: 5, now: 100, ttl: std::time::Duration::ZERO }, None, "corpus:vclock-of-dropped-tombstone", true).await;
         // three candidates of uneven sizes, max_segments_per_compaction = 2: oldest-first takes the
         // large old segment (k = v1) together with k's expired tombstone — must pass
         let seg0: Vec<Upd> = std::iter::once(lww_upd("k", b"v1", 10, 1, false))
             .chain((0..8).map(|i| lww_upd(&format!("pad{}", i), b"padding-value", 11 + i, 1, false)))
             .collect();
         layout_case(&mut out, &[seg0, vec![tomb_upd("k", 20, 1)], vec![lww_upd("x", b"1", 30, 1, false)]],
-            &CCfg { target: 1 << 20, min: 2, maxper: 2, cutoff: 100 }, None, "corpus:uneven-candidates-maxper-2", true).await;
+            &CCfg { target: 1 << 20, min: 2, maxper: 2, now: 100, ttl: std::time::Duration::ZERO }, None, "corpus:uneven-candidates-maxper-2", true).await;
         // one read of the pass comes back with a flipped byte in the record region (checksum fails,
         // some positions still decode): the segment must be skipped, recovery unchanged
         for pm in [350u16, 450, 550, 650, 750, 850] {
             layout_case(&mut out, &[vec![lww_upd("k", b"value-one", 5, 1, false)], vec![lww_upd("l", b"value-two", 6, 1, false)], vec![lww_upd("m", b"value-three", 7, 1, false)]],
-                &CCfg { target: 1 << 20, min: 1, maxper: 5, cutoff: 0 }, Some((1, Fault::ReadFlip { permille: pm, n: 1, mask: 1, persistent: false })), "corpus:pass-read-flip", true).await;
+                &CCfg { target: 1 << 20, min: 1, maxper: 5, now: 0, ttl: std::time::Duration::ZERO }, Some((1, Fault::ReadFlip { permille: pm, n: 1, mask: 1, persistent: false })), "corpus:pass-read-flip", true).await;
         }
         // tombstone GC in a pass that SKIPPED the older segment holding the key's value (its read
         // came back empty): the tombstone is dropped, the value resurfaces
         layout_case(&mut out, &[vec![lww_upd("k", b"old", 5, 1, false)], vec![tomb_upd("k", 8, 1)], vec![lww_upd("u", b"1", 9, 1, false)]],
-            &CCfg { target: 1 << 20, min: 2, maxper: 5, cutoff: 100 }, Some((0, Fault::ReadEmpty { persistent: false })), "corpus:gc-skipped-unreadable-segment", true).await;
+            &CCfg { target: 1 << 20, min: 2, maxper: 5, now: 100, ttl: std::time::Duration::ZERO }, Some((0, Fault::ReadEmpty { persistent: false })), "corpus:gc-skipped-unreadable-segment", true).await;
+        // "never collect": TTL u64::MAX ms / Duration::MAX — no tombstone may be dropped (cutoff 0)
+        for ttl in [std::time::Duration::from_millis(u64::MAX), std::time::Duration::MAX, std::time::Duration::from_millis(1u64 << 63)] {
+            let big2: Vec<Upd> = std::iter::once(lww_upd("t", b"x", 3, 1, false))
+                .chain((0..12).map(|i| lww_upd(&format!("pad{}", i), &[b'x'; 30], 1, 1, false)))
+                .collect();
+            layout_case(&mut out, &[big2, vec![tomb_upd("t", 5, 1)], vec![lww_upd("u", b"1", 6, 1, false)]],
+                &CCfg { target: 1000, min: 2, maxper: 5, now: 1000, ttl }, None, "corpus:ttl-never-collect", true).await;
+        }
+        // TTL 2^64 + 384 ms: `as_millis() as u64` wraps to 384 ms
+        let big3: Vec<Upd> = std::iter::once(lww_upd("t", b"x", 3, 1, false))
+            .chain((0..12).map(|i| lww_upd(&format!("pad{}", i), &[b'x'; 30], 1, 1, false)))
+            .collect();
+        layout_case(&mut out, &[big3, vec![tomb_upd("t", 5, 1)], vec![lww_upd("u", b"1", 6, 1, false)]],
+            &CCfg { target: 1000, min: 2, maxper: 5, now: 1000, ttl: std::time::Duration::from_secs(18446744073709552) }, None, "corpus:ttl-wraps-u64", true).await;
         production_clock_witness(&mut out).await;
         interleave_case(&mut out).await;
         enumerate_races(&mut out).await;
